@@ -255,6 +255,51 @@ def bv_binop(I, op, a, b):
     return mk_int(z3.BV2Int(r, False))
 
 
+def record_bounds(I, t, lo, hi):
+    """(C13) lo <= t <= hi has just been PROVED valid under the path condition: keep it as a fact of the path (sound:
+    it is implied) so that later queries get it as a linear fact, and remember it for syn_bounds"""
+    tb = getattr(I.path, 'term_bounds', None)
+    if tb is None:
+        tb = I.path.term_bounds = {}
+    tb[t.get_id()] = (t, lo, hi)
+    I.path.assume(z3.And(t >= lo, t <= hi))
+
+
+def syn_bounds(I, t, depth=0):
+    """(C13) (lo, hi) of an Int term by interval arithmetic over constants, + - *, if-then-else and terms whose bounds
+    were recorded by record_bounds; None when unknown.  No solver call."""
+    if z3.is_int_value(t):
+        v = t.as_long()
+        return (v, v)
+    tb = getattr(I.path, 'term_bounds', None)
+    if tb is not None and t.get_id() in tb:
+        return tb[t.get_id()][1:]
+    if depth > 40 or not z3.is_app(t) or not z3.is_int(t):
+        return None
+    k = t.decl().kind()
+    ch = t.children()
+    if k == z3.Z3_OP_ITE:
+        x, y = syn_bounds(I, ch[1], depth + 1), syn_bounds(I, ch[2], depth + 1)
+        return None if x is None or y is None else (min(x[0], y[0]), max(x[1], y[1]))
+    if k in (z3.Z3_OP_ADD, z3.Z3_OP_SUB, z3.Z3_OP_MUL, z3.Z3_OP_UMINUS):
+        bs = [syn_bounds(I, c, depth + 1) for c in ch]
+        if any(b is None for b in bs):
+            return None
+        if k == z3.Z3_OP_UMINUS:
+            return (-bs[0][1], -bs[0][0])
+        lo, hi = bs[0]
+        for x, y in bs[1:]:
+            if k == z3.Z3_OP_ADD:
+                lo, hi = lo + x, hi + y
+            elif k == z3.Z3_OP_SUB:
+                lo, hi = lo - y, hi - x
+            else:
+                c4 = [lo * x, lo * y, hi * x, hi * y]
+                lo, hi = min(c4), max(c4)
+        return (lo, hi)
+    return None
+
+
 def int_bitop(I, op, a, b):
     if isinstance(a, bool) and isinstance(b, bool):
         return {'&': a & b, '|': a | b, '^': a ^ b}[op]
@@ -271,14 +316,26 @@ def int_bitop(I, op, a, b):
         return bv_binop(I, op, a, b)
     if op == '|':
         # disjoint bit ranges -> addition
+        # (C13) first without the scan of known_bits (up to 17 solver calls per operand): bounds that are syntactic
+        # or were proved earlier on this path, then ONE query for exactly the width that matters
+        for x, y in ((a, b), (b, a)):
+            lz = low_zero_bits(y)
+            if 0 < lz < 10 ** 6:
+                sb = syn_bounds(I, zterm(x))
+                if sb is not None and sb[0] >= 0 and sb[1] < _pow2(lz):
+                    return mk_int(zterm(x) + zterm(y))
+        for x, y in ((a, b), (b, a)):
+            lz = low_zero_bits(y)
+            if 0 < lz < 10 ** 6 and not isinstance(x, int) and syn_bounds(I, zterm(x)) is None:
+                t = zterm(x)
+                if I.path.must(z3.And(t >= 0, t < _pow2(lz))):
+                    record_bounds(I, t, 0, _pow2(lz) - 1)
+                    return mk_int(t + zterm(y))
         for x, y in ((a, b), (b, a)):
             lz = low_zero_bits(y)
             if lz > 0:
                 kx = known_bits(I, x)
                 if kx is not None and kx <= lz:
-                    return mk_int(zterm(x) + zterm(y))
-                if kx is not None and kx > lz and kx - lz <= 2 and I.path.must(zterm(x) < _pow2(lz)):
-                    # (C13) known_bits only tries a few widths (.., 8, 10, 13, ..): ask for the width that matters here
                     return mk_int(zterm(x) + zterm(y))
         if isinstance(a, int) and a == 0:
             return b
@@ -459,7 +516,24 @@ def unop(I, op, a):
 # ---------------------------------------------------------------- comparison
 
 def is_seq(v):
-    return isinstance(v, (PList, PBytearray, PBytes, tuple, SSeq)) and not isinstance(v, str)
+    return isinstance(v, (PList, PBytearray, PBytes, tuple, SSeq, SView)) and not isinstance(v, str)
+
+
+def zi(x):
+    return z3.IntVal(x) if isinstance(x, int) else x
+
+
+def view_elem(I, v, j):
+    """element j (term, relative to the window) of a view; bytes kinds carry their range invariant"""
+    t = z3.Select(v.arr, z3.simplify(zi(v.off) + zi(j)))
+    if v.kind in ('bytes', 'bytearray') or getattr(v, 'byte_range', False):
+        I.path.assume(z3.And(t >= 0, t <= 255))
+    return mk_int(t)
+
+
+def view_items(I, v, limit=64):
+    n = small_value(I, mk_int(zi(v.ln)), limit)
+    return [view_elem(I, v, i) for i in range(n)]
 
 
 def seq_items(v):
@@ -513,6 +587,20 @@ def py_eq(I, a, b):
         compat = ka == kb or {ka, kb} == {'bytes', 'bytearray'}
         if not compat:
             return False
+        if isinstance(a, SView) or isinstance(b, SView):
+            if isinstance(a, SView) and isinstance(b, SView):
+                if a.arr.eq(b.arr) if hasattr(a.arr, 'eq') else False:
+                    same = z3.And(zi(a.ln) == zi(b.ln), z3.Or(zi(a.ln) == 0, zi(a.off) == zi(b.off)))
+                    r = mk_bool(same)
+                    if r is True or I.spec_mode:
+                        # sufficient condition for equality (same window of the same array): sound for PROVING an equality
+                        return r
+                raise OutOfSubset('== between symbolic-length views that are not windows of one array')
+            v, o = (a, b) if isinstance(a, SView) else (b, a)
+            if isinstance(o, SSeq):
+                raise OutOfSubset('== between a view and a z3 sequence')
+            items = seq_items(o)
+            return conj(I, [mk_bool(zi(v.ln) == len(items))] + [py_eq(I, mk_int(z3.Select(v.arr, z3.simplify(zi(v.off) + i))), x) for i, x in enumerate(items)])
         if isinstance(a, SSeq) or isinstance(b, SSeq):
             return mk_bool(seq_term(a) == seq_term(b))
         ia, ib = seq_items(a), seq_items(b)
@@ -717,16 +805,48 @@ def seq_concat(I, a, b):
     ka, kb = seq_kind(a), seq_kind(b)
     if ka != kb and not ({ka, kb} <= {'bytes', 'bytearray'}):
         I.raise_py('TypeError', 'can only concatenate %s (not "%s") to %s' % (ka, kb, ka))
+    if isinstance(a, SView) or isinstance(b, SView):
+        if isinstance(a, SView) and isinstance(b, SView) and a.arr.eq(b.arr):
+            if I.path.must(zi(a.off) + zi(a.ln) == zi(b.off)):
+                r = SView(a.arr, a.off, z3.simplify(zi(a.ln) + zi(b.ln)), ka)
+                r.byte_range = getattr(a, 'byte_range', False)
+                return r
+        for x, y in ((a, b), (b, a)):
+            ly = seq_len(I, y)
+            if (isinstance(ly, int) and ly == 0) or (not isinstance(ly, int) and I.path.must(zterm(ly) == 0)):
+                if isinstance(x, SView):
+                    r = SView(x.arr, x.off, x.ln, ka)
+                    r.byte_range = getattr(x, 'byte_range', False)
+                    return r
+                return mk_seq(ka, seq_items(x))
+        raise OutOfSubset('concatenation of symbolic-length views that are not adjacent windows of one array')
     if isinstance(a, SSeq) or isinstance(b, SSeq):
         return SSeq(z3.Concat(seq_term(a), seq_term(b)), ka)
     return mk_seq(ka, seq_items(a) + seq_items(b))
+
+
+def small_value(I, n, limit=64):
+    """python int for a symbolic int that is provably within 0..limit (forks over the values)"""
+    if isinstance(n, bool):
+        return int(n)
+    if isinstance(n, int):
+        return n
+    t = zterm(n)
+    if not I.path.must(z3.And(t >= 0, t <= limit)):
+        raise OutOfSubset('symbolic count without a provable bound 0..%d' % limit)
+    for k in range(limit + 1):
+        if I.path.decide(t == k):
+            return k
+    raise OutOfSubset('small_value fell through')
 
 
 def seq_repeat(I, a, n):
     if isinstance(a, str) and isinstance(n, int):
         return a * n
     if not isinstance(n, int):
-        raise OutOfSubset('sequence repetition by a symbolic count')
+        n = small_value(I, n)
+        if isinstance(a, str):
+            return a * n
     if isinstance(a, SSeq):
         raise OutOfSubset('repeat of symbolic sequence')
     return mk_seq(seq_kind(a), seq_items(a) * max(n, 0))
@@ -741,6 +861,8 @@ def seq_len(I, v):
         return len(v.chars)
     if isinstance(v, SSeq):
         return mk_int(z3.Length(v.t))
+    if isinstance(v, SView):
+        return mk_int(zi(v.ln))
     if isinstance(v, PDict):
         return len(v.keys)
     if isinstance(v, PSet):
@@ -800,6 +922,14 @@ def norm_index(I, v, idx, n):
 def seq_getitem(I, v, idx):
     if isinstance(idx, SliceVal):
         return seq_slice(I, v, idx)
+    if isinstance(v, SView):
+        n = zi(v.ln)
+        t = zterm(idx)
+        ok = z3.And(t >= -n, t < n)
+        if not I.path.decide(ok):
+            I.raise_py('IndexError', '%s index out of range' % v.kind)
+        j = z3.simplify(z3.If(t < 0, t + n, t))
+        return view_elem(I, v, j)
     if isinstance(v, SSeq):
         n = z3.Length(v.t)
         t = zterm(idx)
@@ -864,6 +994,19 @@ def seq_slice(I, v, sl):
                 return v[sl.lo:sl.hi:sl.step]
             return mk_seq(seq_kind(v), seq_items(v)[sl.lo:sl.hi:sl.step])
         raise OutOfSubset('slice step')
+    if isinstance(v, SView):
+        n = zi(v.ln)
+
+        def nbv(b, default):
+            if b is None:
+                return default
+            t = zterm(b)
+            return z3.If(t < 0, z3.If(t + n < 0, 0, t + n), z3.If(t > n, n, t))
+        lo = nbv(sl.lo, z3.IntVal(0))
+        hi = nbv(sl.hi, n)
+        r = SView(v.arr, z3.simplify(zi(v.off) + lo), z3.simplify(z3.If(hi > lo, hi - lo, 0)), v.kind)
+        r.byte_range = getattr(v, 'byte_range', False)
+        return r
     if isinstance(v, SSeq):
         n = z3.Length(v.t)
 
